@@ -25,6 +25,9 @@ CHECKS["C05"] = ("model_checking", "bounded-exhaustive exploration of the real c
 CHECKS["C17"] = ("model_checking", "bounded-exhaustive exploration of the real code: every physically consistent schedule of N events over the dance key and one other key with gaps from {0,1,T-1,T,T+1}, for lists of length 1-4, lazy and eager, two timeouts, two rapid-event-delay values; checked against the TapDanceSpec reference (set of acceptable press-output sequences) and a tap-accounting invariant",
   "No explored schedule swallows or doubles a tap, performs an action other than the N-th, lets an interrupting key overtake the chosen action, or releases the chosen action before the final release of the dance key. Exhaustive over the stated schedule space.",
   "count boundaries within the processing skew (queue delay + rapid-event-delay + 2 ticks) of the timeout are don't-cares; key actions only", "DESIGN.md §4 C17")
+CHECKS["C06"] = ("model_checking", "bounded-exhaustive exploration of the real code: every physically consistent schedule of N events over two one-shot keys and two plain keys with gaps from {0,1,T-1,T,T+1} for all four end-variants x timeouts x rapid-event-delay x body kinds, plus the complete stacking family n=1..20; checked against the OneShotSpec reference (set of acceptable modifier masks per plain key press)",
+  "No explored schedule applies a one-shot to a key after its end point, fails to apply it to the first following key within the timeout, loses or reorders plain keys, or leaves anything held after settling. Exhaustive over the stated schedule space.",
+  "timer boundaries within the processing skew branch into both readings", "DESIGN.md §4 C06")
 NOT_YET = {}
 props = [json.loads(l) for l in open('/verif/properties.jsonl')]
 hooks_commits = subprocess.run(["git","-C","/repo","log","--format=%h %s"],capture_output=True,text=True).stdout.splitlines()
